@@ -107,7 +107,7 @@ def text(frames=FRAMES, meta=True):
 
 
 def simple_sky(sz=None, frames=FRAMES, meta=True):
-    sz = sz or angsizes()
+    sz = angsizes() if sz is None else sz
     return st.one_of(circle(sz, frames, meta), ellipse(sz, frames, meta),
                      rectangle(sz, frames, meta), polygon(frames, meta),
                      circle_annulus(sz, frames, meta),
